@@ -122,13 +122,13 @@ def task_gsearch(ctx, arg):
         if (v['fid'], v['failure']) in seen:
             continue
         seen.add((v['fid'], v['failure']))
-        violations.append(dict(obligation='mirvc/' + v['fid'], props=PROP.get(op, ['C04']), summary='%s(%s...) expected %s observed %s' % (
+        violations.append(dict(obligation='mirvc/' + v['fid'], props=sorted(set(PROP.get(op, ['C04']) + ['C16'])), summary='%s(%s...) expected %s observed %s' % (
             v['hook'], ','.join(a[:16] for a in v['args']), str(v['expected'])[:40], str(v['observed'])[:40]),
             replay=dict(kind='hook', **v), input_class=v['failure']))
     searches = []
     for k, n in sorted(stats.items()):
         op = k.split('::')[-1]
-        searches.append(dict(name='gsearch/' + k, cases=n, seconds=round(time.time() - t, 2), props=PROP.get(op if op != 'add_ref' else 'add', ['C04'])))
+        searches.append(dict(name='gsearch/' + k, cases=n, seconds=round(time.time() - t, 2), props=sorted(set(PROP.get(op if op != 'add_ref' else 'add', ['C04']) + ['C16']))))
     return dict(violations=violations, searches=searches)
 
 def limb_props(fid):
@@ -213,6 +213,37 @@ def task_psearch(ctx, arg):
     searches = [dict(name='psearch/both-profiles', cases=dd.calls, seconds=round(time.time() - t, 2), props=['C18'])]
     return dict(violations=violations, searches=searches)
 
+def task_ground(ctx, arg):
+    import ground
+    drv = get_driver()
+    obligations = []
+    t = time.time()
+    for name, props, status, detail in ground.facts(drv):
+        obligations.append(dict(id='ground/' + name, status=status, detail=detail, seconds=0.0, engine='ground evaluation of closed terms',
+                                backend='exact integer / finite-field arithmetic (Python); constants parsed from the current source', function='constants', props=props))
+    return dict(obligations=obligations)
+
+def task_pairsearch(ctx, arg):
+    """pairing entry points on the real code vs an independent textbook R-ate pairing (spec/sm9spec.py)"""
+    import search_pairing
+    drv = get_driver()
+    t = time.time()
+    stats, viols = search_pairing.search(drv, ctx.seed, ctx.tier)
+    def props(v):
+        if v['fid'].startswith('gt::') or v['fid'].startswith('lib::gt_'):
+            return ['C11', 'C01'] if 'pow' in v['fid'] else ['C11']
+        if v['failure'].startswith('identity') or v['failure'].startswith('panic'):
+            return ['C01', 'C03', 'C16']
+        if 'reuse' in v['failure']:
+            return ['C03']
+        return ['C02', 'C03', 'C01', 'C16']
+    violations = [dict(obligation='pairing/' + v['fid'], props=props(v), summary='%s expected %s observed %s [%s]' % (
+        v['hook'], str(v['expected'])[:40], str(v['observed'])[:40], v['failure']),
+        replay=dict(kind='hook', **v), input_class=v['failure']) for v in viols]
+    searches = [dict(name='pairsearch/' + k, cases=n, seconds=round(time.time() - t, 2),
+                     props=['C11', 'C01'] if k.startswith('gt::') else ['C01', 'C02', 'C03', 'C16']) for k, n in sorted(stats.items())]
+    return dict(violations=violations, searches=searches)
+
 # ---------------------------------------------------------------------------------------------
 # E2: Kani on a scratch copy of the real crate
 
@@ -225,7 +256,8 @@ KANI_GROUPS = {
                                  'g1_from_slice_modular', 'g1_from_uncompressed_modular', 'g1_from_compressed_modular',
                                  'g2_from_slice_modular', 'g2_from_uncompressed_modular', 'g2_from_compressed_modular'], props=['C08', 'C18'], timeout=900),
     'enc': dict(harnesses=['g1_to_slice_layout', 'g1_to_uncompressed_layout', 'g1_to_compressed_layout',
-                           'g2_to_slice_layout', 'g2_to_uncompressed_layout', 'g2_to_compressed_layout'], props=['C10', 'C18'], timeout=900),
+                           'g2_to_slice_layout', 'g2_to_uncompressed_layout', 'g2_to_compressed_layout',
+                           'fq12_to_slice_layout', 'fq2_to_slice_layout'], props=['C10', 'C18', 'C11', 'C12', 'C02'], timeout=900),
     'dispatch': dict(harnesses=['fr_from_slice_dispatch_lo', 'fr_from_slice_dispatch_hi', 'fq_from_slice_dispatch_lo', 'fq_from_slice_dispatch_hi',
                                 'fr_from_hash_total', 'fq_to_big_endian_total'], props=['C13', 'C18'], timeout=1200),
     'canon': dict(harnesses=['u256_mul_canonical', 'u256_square_canonical', 'sum_of_products_2_canonical'], props=['C07', 'C06', 'C12', 'C18'], timeout=3000),
